@@ -22,13 +22,14 @@ structure Render where
   kwargs : List (List Char × Val)
   within : Option Nat          -- for <option>: index of the render that is its <select>
   shown : List Char            -- display text (`Sequence.u`) when the bind is a whole Array
+  how : How                    -- through which Tag method (a held Tag object renders like a fresh one)
 
 def parseRender (j : Json) : Except String Render := do
   let sel ← optOf (listOf nat) (← fld j "sel")
   let tag0 ← cfld j "tag"
   let within ← optOf nat (fldD j "within" Json.null)
   let shown ← chars (fldD j "arr_shown" (Json.str ""))
-  return ⟨sel, tag0, ← parsePairs parseVal (← fld j "kwargs"), within, shown⟩
+  return ⟨sel, tag0, ← parsePairs parseVal (← fld j "kwargs"), within, shown, ← parseHow j⟩
 
 def ofPair (p : Option (List Char × List Char)) : Json :=
   match p with
@@ -52,14 +53,19 @@ def run (j : Json) : Except String Json := do
       let bindJson := match r.sel, bind with
         | some _, some b => obj [("name", ofStr b.flatName), ("u", ofStr b.u)]
         | _, _ => Json.null
+      if r.how != How.call && voidElements.contains r.tag then
+        -- Tag.open()/close() refuse void elements before doing anything
+        outs := outs.push (obj [("bind", bindJson), ("err", Json.str PyErr.valueError.name), ("out", Json.null), ("posted", Json.null)])
+        names := names.push none
+        continue
       match prepareTag T staticAttributeOrder g r.tag bind r.kwargs with
       | .error e =>
         outs := outs.push (obj [("bind", bindJson), ("err", Json.str e.name), ("out", Json.null), ("posted", Json.null)])
         names := names.push none
         g := g.afterFailedTag T r.tag bind r.kwargs
       | .ok res =>
-        let out := match Flatland.C11.renderTag attrChain voidElements g.xml r.tag res.pairs res.contents with
-          | .ok s => ofStr s
+        let out := match (g.renderHow T attrChain voidElements staticAttributeOrder r.how r.tag bind r.kwargs).1 with
+          | .ok (s, _) => ofStr s
           | .error e => Json.str ("!" ++ e.name)
         let attrs := strAttrs res.pairs
         let text := Flatland.C11.decodeRefs res.contents
